@@ -68,7 +68,7 @@ CollCheck(cc, p, isDir) ==            \* <<ok, cc'>>
 
 \* ---- classification of a file list (CheckFiles) ----
 \* result: [valid, omitted, invalid: sequences of paths in order of first report; sizeerr]
-Class0 == [valid |-> <<>>, omitted |-> <<>>, invalid |-> <<>>, cc |-> <<>>, reported |-> {}]
+Class0 == [valid |-> <<>>, omitted |-> <<>>, invalid |-> <<>>, cc |-> <<>>, reported |-> {}, sizeerr |-> FALSE]
 AddTo(c, list, p) == IF p \in c.reported THEN c ELSE [c EXCEPT ![list] = Append(@, p), !.reported = @ \cup {p}]
 ClassOne(c, f, files, ge124) ==
     LET p == f.path IN
@@ -108,7 +108,10 @@ CreateOK(files, ge124) == Classify(files, ge124).invalid = <<>>
 Entries(prefix, files, ge124) == LET v == Classify(files, ge124).valid IN [i \in 1..Len(v) |-> prefix \o v[i]]
 
 \* ---- archives (CheckZip / Unzip) ----
-\* an entry: [name (raw), size: "ok" "big" "lie-more" (content larger than declared) "lie-less"]
+\* an entry: [name (raw), size: "ok" "big" (16 MiB + 1, honest) "lie-more" (content larger than declared) "lie-less"
+\*            "over" (declares 500 MiB + 1, more than an archive may hold) "huge" (declares 2^63, negative as a signed number)]
+\* Sizes are added up over the file entries that pass the name checks; a total over the limit is an error of the
+\* archive as a whole (sizeerr), not of an entry.
 ZipOne(c, e, prefix) ==
     IF ~HasPrefix(e.name, prefix) THEN [c EXCEPT !.invalid = Append(@, e.name)]
     ELSE LET n0 == Drop(e.name, Len(prefix)) IN
@@ -122,16 +125,17 @@ ZipOne(c, e, prefix) ==
                    ELSE LET c1 == [c EXCEPT !.cc = r[2]] IN
                         IF isDir THEN c1
                         ELSE IF EqualFold(Base(n), GoMod) /\ (Base(n) # n \/ n # GoMod) THEN [c1 EXCEPT !.invalid = Append(@, e.name)]
-                        ELSE IF e.size = "big" /\ (n = GoMod \/ n = S("LICENSE")) THEN [c1 EXCEPT !.invalid = Append(@, e.name)]
-                        ELSE [c1 EXCEPT !.valid = Append(@, e.name)]
+                        ELSE LET c2 == [c1 EXCEPT !.sizeerr = @ \/ e.size \in {"over", "huge"}] IN
+                             IF e.size \in {"big", "over"} /\ (n = GoMod \/ n = S("LICENSE")) THEN [c2 EXCEPT !.invalid = Append(@, e.name)]
+                             ELSE [c2 EXCEPT !.valid = Append(@, e.name)]
 RECURSIVE ZipFrom(_, _, _)
 ZipFrom(c, es, prefix) == IF es = <<>> THEN c ELSE ZipFrom(ZipOne(c, Head(es), prefix), Tail(es), prefix)
-CheckZip(entries, prefix) == LET c == ZipFrom(Class0, entries, prefix) IN [valid |-> c.valid, invalid |-> c.invalid]
+CheckZip(entries, prefix) == LET c == ZipFrom(Class0, entries, prefix) IN [valid |-> c.valid, invalid |-> c.invalid, sizeerr |-> c.sizeerr]
 \* extraction succeeds iff the check accepts and no file's content is larger than its declaration;
 \* the tree is the set of relative names of the file entries
 \* (directory entries, names ending in a slash, carry no content and are not extracted)
 IsDirEntry(e) == Len(e.name) > 0 /\ e.name[Len(e.name)] = cSl
-UnzipOK(entries, prefix) == CheckZip(entries, prefix).invalid = <<>> /\ \A i \in 1..Len(entries) : IsDirEntry(entries[i]) \/ entries[i].size \notin {"lie-more", "lie-less"}
+UnzipOK(entries, prefix) == CheckZip(entries, prefix).invalid = <<>> /\ ~CheckZip(entries, prefix).sizeerr /\ \A i \in 1..Len(entries) : IsDirEntry(entries[i]) \/ entries[i].size \notin {"lie-more", "lie-less", "over", "huge"}
 UnzipTree(entries, prefix) ==
     {Drop(entries[i].name, Len(prefix)) : i \in {j \in 1..Len(entries) : Len(entries[j].name) > Len(prefix) /\ entries[j].name[Len(entries[j].name)] # cSl}}
 ===============================================================================
